@@ -730,6 +730,67 @@ func runC19(h *H) {
 	} {
 		checkKeys(ks, "corpus")
 	}
+	// And must copy: the receiver may not share memory with its operand (history-dependent: the
+	// same base And-ed into two receivers, each extended afterwards)
+	{
+		mk := func() imap.SearchCriteria {
+			b := imap.SearchCriteria{}
+			b.Flag = append(make([]imap.Flag, 0, 4), imap.FlagSeen)
+			b.NotFlag = append(make([]imap.Flag, 0, 4), imap.FlagDeleted)
+			b.Text = append(make([]string, 0, 4), "hello")
+			b.Body = append(make([]string, 0, 4), "world")
+			b.Header = append(make([]imap.SearchCriteriaHeaderField, 0, 4), imap.SearchCriteriaHeaderField{Key: "Subject", Value: "foo"})
+			b.Not = append(make([]imap.SearchCriteria, 0, 4), imap.SearchCriteria{Larger: 5})
+			b.Or = append(make([][2]imap.SearchCriteria, 0, 4), [2]imap.SearchCriteria{{Smaller: 100}, {Larger: 5000}})
+			var us imap.UIDSet
+			us.AddRange(1, 9)
+			b.UID = append(make([]imap.UIDSet, 0, 4), us)
+			var ss imap.SeqSet
+			ss.AddRange(1, 5)
+			b.SeqNum = append(make([]imap.SeqSet, 0, 4), ss)
+			return b
+		}
+		extra := func(i int) imap.SearchCriteria {
+			var us imap.UIDSet
+			us.AddNum(imap.UID(100 + i))
+			var ss imap.SeqSet
+			ss.AddNum(uint32(200 + i))
+			return imap.SearchCriteria{Flag: []imap.Flag{imap.Flag(fmt.Sprintf("$k%d", i))}, NotFlag: []imap.Flag{imap.Flag(fmt.Sprintf("$n%d", i))},
+				Text: []string{fmt.Sprintf("t%d", i)}, Body: []string{fmt.Sprintf("b%d", i)},
+				Header: []imap.SearchCriteriaHeaderField{{Key: "X-K", Value: fmt.Sprint(i)}},
+				Not:    []imap.SearchCriteria{{Smaller: int64(1000 + i)}}, Or: [][2]imap.SearchCriteria{{{Larger: int64(i)}, {Smaller: int64(i)}}},
+				UID: []imap.UIDSet{us}, SeqNum: []imap.SeqSet{ss}}
+		}
+		base := mk()
+		baseBefore := critDesc(&base)
+		var d1, d2 imap.SearchCriteria
+		d1.And(&base)
+		e4 := extra(4)
+		d1.And(&e4)
+		d1Before := critDesc(&d1)
+		d2.And(&base)
+		e5 := extra(5)
+		d2.And(&e5)
+		desc := map[string]interface{}{"scenario": "base And-ed into two empty receivers, each then And-ed with its own extra criteria"}
+		if got := critDesc(&d1); got != d1Before {
+			h.Fail("and-aliases-operand", "building a second criteria from the same base changed the first one: "+d1Before+" became "+got, desc)
+		}
+		if got := critDesc(&base); got != baseBefore {
+			h.Fail("and-aliases-operand", "And-ing further criteria into a receiver changed the operand it had been built from", desc)
+		}
+		// the operand keeps being modified by its owner
+		var d3 imap.SearchCriteria
+		base3 := mk()
+		d3.And(&base3)
+		d3Before := critDesc(&d3)
+		base3.Flag = append(base3.Flag, "$later")
+		base3.Text[0] = "changed"
+		if got := critDesc(&d3); got != d3Before {
+			h.Fail("and-aliases-operand", "modifying the operand after And changed the receiver", desc)
+		}
+		h.Eval("and-aliasing")
+		h.Hist("src:aliasing")
+	}
 	// random And pairs
 	for i := 0; i < h.Pick(1500, 30000); i++ {
 		checkAnd(g.randCriteria(2), g.randCriteria(2), "random")
